@@ -2,6 +2,8 @@
 .PHONY: setup coq model clean
 setup: coq model
 coq:
+	mkdir -p ocaml/extracted build
+	python3 -c "import sys; sys.path.insert(0,'/verif'); from vlib.common import ensure_tables; ensure_tables()"
 	cd coq && coq_makefile -f _CoqProject -o Makefile && timeout 3000 $(MAKE) -j16
 model: coq
 	python3 -c "import sys; sys.path.insert(0,'/verif'); from vlib.common import model_build; print(model_build())"
